@@ -23,6 +23,12 @@ Oracle    : a reference model written from the documentation (bash manual "Direc
             equals the model's stack (exact strings); `len(DIRSTACK) <= $DIRSTACK_SIZE` after a
             successful `pushd` / auto-push; `pushd d; popd` restores directory and stack; what
             `pushd` / `popd` / `dirs` print is the stack.
+Findings  : three recorded defects have narrow predicates (alternatives tagged `known` in the model):
+            F1 extraction instead of rotation, F2 swallowed chdir failure, F3 relative word remembered by
+            `pushd -n`.  While a finding is open in known_findings.json its exact shape is tolerated (F1, F2;
+            counted) or not generated (F3; counted); otherwise it is reported with `finding=<id>`.
+            Failing histories are shrunk by Hypothesis and then by `minimize_ops`; `check_history`
+            replays a history without Hypothesis.
 """
 
 from __future__ import annotations
@@ -48,6 +54,7 @@ HOOKS = False
 
 F1 = "C16-F1"   # pushd +N/-N extracts the entry instead of rotating
 F2 = "C16-F2"   # chdir failure inside _change_working_directory is swallowed
+F3 = "C16-F3"   # pushd -n <relative dir> remembers the word, not the directory
 
 # ----------------------------------------------------------------------------------------
 # scratch tree
@@ -99,8 +106,8 @@ def _drop_dac():
     CAP_DAC_READ_SEARCH from the effective, permitted and inheritable sets of *this* (worker) process.
     The uid stays 0, so the interpreter's files stay readable - no need for the warm-up that a
     setuid(65534) would require.  Returns nothing; `perm_enforced` measures the effect."""
-    if os.geteuid() != 0:
-        return
+    if os.geteuid() != 0 or os.environ.get("VERIF_C16_KEEP_CAPS"):
+        return      # (the variable exists to exercise the "class skipped" path of this check)
     try:
         import ctypes
 
@@ -420,15 +427,18 @@ class Model:
             have = True
             strict = strict and s
             if nocd:
-                for x in c:
-                    alts.append({"kind": "ok", "target": None, "physical": False, "oldpwd": "keep",
-                                 "stack": self.trunc([("names", x, self.pwd)] + self.stack)})
+                named = list(c)
                 if self.local_isdir(w) and not c:
                     # remembering a directory that cannot be entered is not an error of `pushd -n`
-                    for x in (self.logical(w), self.physical(w)):
-                        if x is not None and os.path.isdir(x):
-                            alts.append({"kind": "ok", "target": None, "physical": False, "oldpwd": "keep",
-                                         "stack": self.trunc([("names", rp(x), self.pwd)] + self.stack)})
+                    named = [rp(x) for x in (self.logical(w), self.physical(w))
+                             if x is not None and os.path.isdir(x)]
+                for x in named:
+                    # the stack remembers directories: the new entry must keep naming x wherever the
+                    # shell goes next, i.e. be absolute; the word as typed (relative) is finding F3
+                    alts.append({"kind": "ok", "target": None, "physical": False, "oldpwd": "keep",
+                                 "stack": self.trunc([("names", x, self.pwd, "abs")] + self.stack)})
+                    alts.append({"kind": "ok", "target": None, "physical": False, "oldpwd": "keep",
+                                 "stack": self.trunc([("names", x, self.pwd, "rel")] + self.stack), "known": F3})
             else:
                 psh = self.trunc([self.pwd] + self.stack)
                 for x in c:
@@ -677,8 +687,8 @@ class History:
                 if want != got:
                     return None
             else:
-                _, real, base = want
-                if not isinstance(got, str):
+                _, real, base, mode = want
+                if not isinstance(got, str) or os.path.isabs(os.path.expanduser(got)) != (mode == "abs"):
                     return None
                 if rp(os.path.join(rp(base), os.path.expanduser(got))) != real and \
                         rp(os.path.normpath(os.path.join(base, got))) != real:
@@ -795,7 +805,9 @@ class History:
         self.ops.append(op)
         kind = op["op"]
         depth = len(self.m.stack)
-        lab = ["op:" + kind, "depth@%s:%d" % (kind, min(depth, 6))]
+        lab = ["op:" + kind]
+        if kind in ("cd", "pushd", "popd", "dirs", "roundtrip"):
+            lab.append("depth@%s:%d" % (kind, min(depth, 6)))
         if depth >= 2 and kind in ("cd", "pushd", "popd", "dirs", "roundtrip"):
             self.nontrivial = True
             lab.append("step-nontrivial:depth>=2")
@@ -852,13 +864,13 @@ class History:
         alts, quiet = self.m.plan_pushd([_subst(self.root, a) for a in op.get("args", [])])
         what, before, after, rc, out, err = self._cmd("pushd", op, lab)
         size = self.m.size
+        if rc == 0 and len(after["stack"]) > size:
+            self.bad("stack-too-long", "%s returned 0 and left %d remembered entries, $DIRSTACK_SIZE=%d: %r"
+                     % (what, len(after["stack"]), size, after["stack"]))
         hit = self.settle(what, alts, before, after, rc, out, err)
         self._note_outcome(hit, alts, lab)
-        if hit["kind"] == "ok":
-            if len(after["stack"]) > size:
-                self.bad("stack-too-long", "%s: %d entries, $DIRSTACK_SIZE=%d" % (what, len(after["stack"]), size))
-            if len(before["stack"]) >= size:
-                lab.append("pushd-at-size-limit")
+        if hit["kind"] == "ok" and len(before["stack"]) >= size:
+            lab.append("pushd-at-size-limit")
         self._check_listing(what, quiet, hit, out)
 
     def do_popd(self, op, lab):
@@ -1087,7 +1099,7 @@ def make_machine():
                 return
             stats.case(("history", json.dumps(h.ops, sort_keys=True)), h.nontrivial,
                        ["history"] + (["history-nontrivial"] if h.nontrivial else []),
-                       sample={"ops": h.ops} if h.nontrivial and 4 <= len(h.ops) <= 14 else None, max_per_label=2)
+                       sample=({"ops": h.ops[:14], "of": len(h.ops)} if h.nontrivial else None), max_per_label=2)
             stats.hist["steps"] += len(h.ops)
             for lab in h.labels:
                 stats.hist[lab] += 1
@@ -1120,6 +1132,12 @@ def make_machine():
 
         @rule(w=words, f=push_flags, v=via)
         def pushd_dir(self, w, f, v):
+            if "-n" in f and not w.startswith("@") and F3 in _ctx["open_ids"]:
+                # known finding F3: the relative word would be remembered as typed and every later use of
+                # the entry would be decided by it - not generated while the finding is open
+                if not _ctx.get("failed"):
+                    _ctx["stats"].excluded_known[F3] += 1
+                return
             self.do({"op": "pushd", "args": list(f) + [w], "via": v})
 
         @rule(w=abs_words, v=via)
@@ -1128,6 +1146,10 @@ def make_machine():
 
         @rule(n=st.one_of(st.none(), nums, nums), f=push_flags, v=via)
         def pushd_rot(self, n, f, v):
+            if n and "-n" in f and F3 in _ctx["open_ids"] and self.h.m.local_isdir(n):
+                if not _ctx.get("failed"):      # `+1` next to a directory called +1: F3 again
+                    _ctx["stats"].excluded_known[F3] += 1
+                return
             self.do({"op": "pushd", "args": list(f) + ([n] if n else []), "via": v})
 
         @rule(a=st.one_of(bad_nums.map(lambda x: [x]),
@@ -1314,7 +1336,21 @@ def main(run):
     common.pool_map(run, __name__, "worker_machine",
                     [(common.worker_seed(run.seed, w), per, steps, os.path.join(run.scratch, "w%d" % w), open_ids)
                      for w in range(nw)], procs=nw)
-    run.extra["steps_executed"] = run.stats.hist.get("steps", 0)
+    h = run.stats.hist
+    steps = h.get("steps", 0)
+    run.extra["steps_executed"] = steps
+    if not run.stats.failures:
+        # vacuity guard: the histories must really reach the interesting states
+        floors = [("step-nontrivial:depth>=2", steps // 10), ("step-nontrivial:failing-command", steps // 20),
+                  ("via:exec", steps // 10), ("via:direct", steps // 10), ("pushd-at-size-limit", 5),
+                  ("roundtrip:done", 5), ("cd-auto-pushd", 5), ("extchdir:moved", 5), ("ctxcd:body", 5),
+                  ("fs:removed-while-remembered", 1)]
+        low = ["%s=%d<%d" % (k, h.get(k, 0), v) for k, v in floors if h.get(k, 0) < v]
+        for kind in ("pushd", "popd", "cd", "dirs"):
+            if sum(h.get("depth@%s:%d" % (kind, d), 0) for d in (3, 4, 5, 6)) < 20:
+                low.append("%s at depth >= 3" % kind)
+        if low:
+            raise common.HarnessError("generator incomplete, under the floor: " + ", ".join(low))
     run.assumptions += [
         "the tree is static apart from one directory that a rule removes and recreates; the current directory "
         "itself is never removed",
